@@ -987,6 +987,7 @@ spif_dlinked_list_reverse(spif_dlinked_list_t self)
         current = current->next;
         SWAP(tmp->prev, tmp->next);
     }
+    self->tail = self->head;
     self->head = tmp;
     return TRUE;
 }
